@@ -48,6 +48,7 @@ var pool = []poolItem{
 	{"kwkey", `:key`},
 	{"list12", `(list 1 2)`},
 	{"dotted", `(cons 'a 'b)`},
+	{"bytespec0", `(cons 0 3)`},
 	{"nested", `(list (list 1 2) (list 'x "y") nil)`},
 	{"alist", `(list (cons 'a 1) (cons 'b 2))`},
 	{"lamx", `(list 'lambda (list 'x) 'x)`},
